@@ -96,4 +96,91 @@ theorem model_agrees (l : Log.CLog) (reverse : Bool) (o : Int) :
   refine ⟨?_, rfl, rfl⟩
   cases hr : l.readonly <;> cases reverse <;> simp [Subscribe.stopOffset, hf, hr, Subscribe.waitForNew]
 
+/-! ### `partition.getStartOffset` -/
+
+/-- what `EarliestOffsetAfterTimestamp` answers is a parameter here too (the lookup itself is `Props.GoTimestamps`) -/
+def tsExtS (ans : Int × Option String) : Ext := fun f _ _ =>
+  if f = "EarliestOffsetAfterTimestamp" then
+    some (.tup [.int ans.1, match ans.2 with | none => .nil | some e => .str e])
+  else if f = "status.New" then some (.str "status")
+  else if f = "fmt.Sprintf" then some (.str "message")
+  else none
+
+def encLogViewS (oldest newest : Int) : Val :=
+  .struct [("log", .struct [("OldestOffset", .int oldest), ("NewestOffset", .int newest)])]
+
+/-- `*client.SubscribeRequest`: the fields getStartOffset reads -/
+def encReqS (pos : Int) (startOffset startTs : Int) : Val :=
+  .struct [("StartPosition", .int pos), ("StartOffset", .int startOffset), ("StartTimestamp", .int startTs)]
+
+@[simp] theorem lk_g : evalE.lookup' "getStartOffset" prog = some fn_partition_getStartOffset := by simp [prog, gomini]
+@[simp] theorem lk_h : evalE.lookup' "OldestOffset" prog = none := by simp [prog, gomini]
+@[simp] theorem lk_i : evalE.lookup' "EarliestOffsetAfterTimestamp" prog = none := by simp [prog, gomini]
+
+/-- a negative start is clamped to 0 ("if the log is empty the next offset will be 0") -/
+def clamp0 (o : Int) : Int := if o < 0 then 0 else o
+
+/-- OFFSET: the requested offset, clamped -/
+theorem go_start_offset (oldest newest so ts : Int) (ans : Int × Option String) :
+    stopView (runG prog (tsExtS ans) 30 "getStartOffset" (some (encLogViewS oldest newest)) [encReqS 1 so ts] globals) =
+      some (.int (clamp0 so), false) := by
+  by_cases h : so < 0 <;>
+    simp [runG, fn_partition_getStartOffset, gomini, encLogViewS, encReqS, globals, binInt, stopView, isNil, clamp0, h]
+
+/-- EARLIEST: the oldest offset of the log, clamped (an empty log has oldest = -1) -/
+theorem go_start_earliest (oldest newest so ts : Int) (ans : Int × Option String) :
+    stopView (runG prog (tsExtS ans) 30 "getStartOffset" (some (encLogViewS oldest newest)) [encReqS 2 so ts] globals) =
+      some (.int (clamp0 oldest), false) := by
+  by_cases h : oldest < 0 <;>
+    simp [runG, fn_partition_getStartOffset, gomini, encLogViewS, encReqS, globals, binInt, stopView, isNil, clamp0, h]
+
+/-- LATEST: the newest offset, clamped -/
+theorem go_start_latest (oldest newest so ts : Int) (ans : Int × Option String) :
+    stopView (runG prog (tsExtS ans) 30 "getStartOffset" (some (encLogViewS oldest newest)) [encReqS 3 so ts] globals) =
+      some (.int (clamp0 newest), false) := by
+  by_cases h : newest < 0 <;>
+    simp [runG, fn_partition_getStartOffset, gomini, encLogViewS, encReqS, globals, binInt, stopView, isNil, clamp0, h]
+
+/-- NEW_ONLY: the offset after the newest one -/
+theorem go_start_newOnly (oldest newest so ts : Int) (ans : Int × Option String) :
+    stopView (runG prog (tsExtS ans) 30 "getStartOffset" (some (encLogViewS oldest newest)) [encReqS 0 so ts] globals) =
+      some (.int (clamp0 (newest + 1)), false) := by
+  by_cases h : newest + 1 < 0 <;>
+    simp [runG, fn_partition_getStartOffset, gomini, encLogViewS, encReqS, globals, binInt, stopView, isNil, clamp0, h]
+
+/-- TIMESTAMP: what the log's lookup answers, clamped; refused (before any clamping) when the lookup fails -/
+theorem go_start_timestamp_ok (oldest newest so ts o : Int) :
+    stopView (runG prog (tsExtS (o, none)) 30 "getStartOffset" (some (encLogViewS oldest newest)) [encReqS 4 so ts] globals) =
+      some (.int (clamp0 o), false) := by
+  by_cases h : o < 0 <;>
+    simp [runG, fn_partition_getStartOffset, gomini, encLogViewS, encReqS, globals, binInt, stopView, isNil, tsExtS, builtin, convert, clamp0, h]
+
+theorem go_start_timestamp_err (oldest newest so ts o : Int) (e : String) :
+    (stopView (runG prog (tsExtS (o, some e)) 30 "getStartOffset" (some (encLogViewS oldest newest)) [encReqS 4 so ts] globals)).map (·.2) =
+      some true := by
+  simp [runG, fn_partition_getStartOffset, gomini, encLogViewS, encReqS, globals, binInt, stopView, isNil, tsExtS, builtin, convert]
+
+/-- any other start position is refused -/
+theorem go_start_unknown (oldest newest so ts : Int) (ans : Int × Option String) (pos : Int)
+    (h : pos ≠ 0 ∧ pos ≠ 1 ∧ pos ≠ 2 ∧ pos ≠ 3 ∧ pos ≠ 4) :
+    (stopView (runG prog (tsExtS ans) 30 "getStartOffset" (some (encLogViewS oldest newest)) [encReqS pos so ts] globals)).map (·.2) =
+      some true := by
+  obtain ⟨h0, h1, h2, h3, h4⟩ := h
+  simp [runG, fn_partition_getStartOffset, gomini, encLogViewS, encReqS, globals, binInt, stopView, isNil, tsExtS, builtin, convert, h0, h1, h2, h3, h4]
+
+/-- the Subscribe model resolves start positions by the same table (`Subscribe.startOffset` is what C10's
+theorems are about; its timestamp case goes through `earliestAfterTs`, tied by `Props.GoTimestamps`) -/
+theorem model_agrees_start (l : Log.CLog) (o : Int) :
+    Subscribe.startOffset l (.offset o) = .ok (clamp0 o) ∧
+    Subscribe.startOffset l .earliest = .ok (clamp0 l.oldest) ∧
+    Subscribe.startOffset l .latest = .ok (clamp0 l.newest) ∧
+    Subscribe.startOffset l .newOnly = .ok (clamp0 (l.newest + 1)) ∧
+    (∀ t r, Subscribe.earliestAfterTs l t = .ok r → Subscribe.startOffset l (.timestamp t) = .ok (clamp0 r)) := by
+  refine ⟨rfl, rfl, rfl, rfl, ?_⟩
+  intro t r h
+  simp [Subscribe.startOffset, h, clamp0, bind, Res.bind]
+
+/-- non-vacuity: the clamp matters on an empty log (oldest = newest = -1) and not on a non-empty one -/
+example : clamp0 (-1) = 0 ∧ clamp0 ((-1) + 1) = 0 ∧ clamp0 7 = 7 := by decide
+
 end Liftbridge.Props.GoSubscribe
